@@ -147,7 +147,7 @@ def certify(run, mon, obj, origin, key, what, case=None, slack=0.0, extra=1.0):
         mon.fail(key + "/non-finite", "%s returned non-finite entries" % what,
                  case if case is not None else run.current_case)
         return False
-    res = float(np.max(rh.form_residual(M)))
+    res = float(np.max(ri.form_residual_both(M)))
     mr = _state["max_residual"]
     if res == res and res > mr.get(origin.split(" of ")[0], -1.0):
         mr[origin.split(" of ")[0]] = res
@@ -400,7 +400,7 @@ def setup(run):
             a = _real(mat)
             if a is None or a.ndim != 2 or a.shape[0] != a.shape[1] or not np.all(np.isfinite(a)):
                 return None
-            if float(rh.form_residual(a)) > 1e-9:
+            if float(ri.form_residual_both(a)) > 1e-9:
                 return None
             big = max(big, ri.maxabs(a))
         return big
@@ -429,7 +429,7 @@ def setup(run):
                            "generator %r of the hyperbolic representation is not a finite real "
                            "matrix" % g, {"coxeter_matrix": m})
                 continue
-            m_con.judge(float(rh.form_residual(a)), TOL * max(1.0, cond),
+            m_con.judge(float(ri.form_residual_both(a)), TOL * max(1.0, cond),
                         "constructor-form/form-not-preserved/CoxeterGroup.hyperbolic_rep",
                         "generator %r of hyperbolic_rep() does not preserve diag(-1,1,..,1)" % g,
                         {"coxeter_matrix": m, "generator": g, "matrix": a})
@@ -740,7 +740,7 @@ def setup(run):
             return m_sl2.fail("sl2-to-so21/bad-result-shape",
                               "sl2_to_so21 returned shape %r for input %r"
                               % (None if R is None else R.shape, A.shape), run.current_case)
-        m_sl2.judge(float(np.max(rh.form_residual(R))), TOL,
+        m_sl2.judge(float(np.max(ri.form_residual_both(R))), TOL,
                     "sl2-to-so21/form-not-preserved",
                     "sl2_to_so21(A) does not preserve diag(-1,1,1) for |det A| = 1",
                     {"workload_case": run.current_case, "A": A, "image": R})
